@@ -25,7 +25,10 @@ PROP = {
             "delete + re-insert of a key inside one transaction, a rolled-back key update, key updates from "
             "NULL / inside a multi-column key, multi-row INSERT failing on its last row. A second family (60 / 600 cases): a table with TWO unique keys (two UNIQUE "
             "columns, two unique indexes, or mixed), 4–8 rows with NULL in one key and a value in the other (NULL on either side), "
-            "then an INSERT repeating every non-NULL key value. After every commit the table is read "
+            "then an INSERT repeating every non-NULL key value. A third family (120 / 1200 cases): a key K inserted by a transaction that rolled back "
+            "(rollback, dropped session, failing batch, multi-row INSERT failing on a later row), then two open transactions both "
+            "INSERT K (both orders of begin / insert / commit, sometimes one of them or a reader began before the rollback), all "
+            "nine key declarations. After every commit the table is read "
             "(`db sel u`) and checked by `constraintsHold` on both sides (PROPFAIL). Non-trivial (`nt`) = some statement or commit of "
             "the case has to be decided by a constraint; distinct = distinct case line.",
     "assumptions": [
